@@ -271,6 +271,7 @@ def gen_scalar_problem(rng, kind="fee", axi=None, units=None, size_nodes=60, all
     # conductors
     c_fixed = B.prop("circuits", name="cfix", type=1, V=rnd_nice(rng, -5, 5) if kind == "fee" else rnd_nice(rng, 280, 350))
     c_float = B.prop("circuits", name="cfloat", type=0, q=rng.choice([0.0, 1e-9, -2e-9]) if kind == "fee" else rng.choice([0.0, 5.0, -2.0]))
+    c_float2 = B.prop("circuits", name="cfloat2", type=0, q=rng.choice([5e-10, -1e-9]) if kind == "fee" else rng.choice([3.0, -1.0]))
     # outer sides
     sides = {}
     choices = ["fix1", "fix2"] + nonfix + [None, "cfix"]
@@ -316,7 +317,17 @@ def gen_scalar_problem(rng, kind="fee", axi=None, units=None, size_nodes=60, all
         what = rng.choice(["cfix", "cfloat", "hole-fix", "material"])
         if box is not None:
             what = box
-        if what in ("cfix", "cfloat"):
+        if what == "twofloat":
+            # two floating conductors separated by a gap thin enough to be bridged by single elements
+            gap = (bx1 - bx0) * 0.06
+            xm1 = (bx0 + bx1) / 2 - gap / 2
+            xm2 = (bx0 + bx1) / 2 + gap / 2
+            for (xa, xb, c) in ((bx0, xm1, c_float), (xm2, bx1, c_float2)):
+                B.rect(xa, by0, xb, by1, {k: dict(cond=c) for k in "brtl"})
+                for q in p["points"][-4:]:
+                    q["cond"] = c
+                p["holes"].append(dict(x=(xa + xb) / 2, y=(by0 + by1) / 2))
+        elif what in ("cfix", "cfloat"):
             c = c_fixed if what == "cfix" else c_float
             B.rect(bx0, by0, bx1, by1, {k: dict(cond=c) for k in "brtl"})
             for q in p["points"][-4:]:
